@@ -410,12 +410,104 @@ pub fn run(ctx: &Ctx) -> i32 {
         rep
     });
     let mut rep = rep;
+    // several identifiers holding nested blocks over ONE field, joined by `and` (or `or`), against
+    // arrays of objects in which the satisfying entries are scattered over the elements in every
+    // order: the truth of the chain does not depend on the order in which the blocks are written,
+    // unoptimised and in three optimised forms (the optimiser merges such blocks)
+    {
+        let extra = par_shards(ctx, 16, |shard| {
+            use crate::ast::*;
+            let mut rep = Report::new();
+            let mut rng = Rng::new(ctx.seed, "C17-blocks", shard as u64);
+            let keys = ["a", "b", "x", "y"];
+            let vals = ["foo", "bar", "baz", "qux"];
+            for _ in 0..ctx.size(40, 400) {
+                let nb = 2 + rng.below(3);
+                let and = rng.chance(75);
+                let blocks: Vec<Entries> = (0..nb)
+                    .map(|i| {
+                        let mut es: Entries = vec![(Key::plain(keys[i]), RVal::Str(vals[i].into()))];
+                        if rng.chance(30) {
+                            let j = (i + 1 + rng.below(3)) % 4;
+                            es.push((Key::plain(keys[j]), RVal::Str(format!("{}*", &vals[j][..2]))));
+                        }
+                        es
+                    })
+                    .collect();
+                let build = |order: &[usize]| -> RuleAst {
+                    let idents: Vec<(String, Ident)> = order.iter().enumerate().map(|(pos, &b)| (format!("I{}", pos), Ident::Map(vec![(Key::plain("n"), RVal::Map(blocks[b].clone()))]))).collect();
+                    let mut cond = Cond::id("I0");
+                    for i in 1..order.len() {
+                        cond = if and { Cond::and(cond, Cond::id(&format!("I{}", i))) } else { Cond::or(cond, Cond::id(&format!("I{}", i))) };
+                    }
+                    RuleAst { idents, cond, tp: vec![], tn: vec![] }
+                };
+                let len = 1 + rng.below(4);
+                let docs: Vec<DVal> = (0..10)
+                    .map(|_| {
+                        let mut elems: Vec<Vec<(String, DVal)>> = (0..len).map(|_| vec![]).collect();
+                        for i in 0..4 {
+                            if rng.chance(80) {
+                                let at = rng.below(len);
+                                let v = if rng.chance(85) { vals[i] } else { "nope" };
+                                if !elems[at].iter().any(|(k, _)| k == keys[i]) {
+                                    elems[at].push((keys[i].to_string(), DVal::s(v)));
+                                }
+                            }
+                        }
+                        let mut arr: Vec<DVal> = elems.into_iter().map(DVal::Obj).collect();
+                        if rng.chance(20) {
+                            arr.insert(rng.below(arr.len() + 1), DVal::s("junk"));
+                        }
+                        DVal::Obj(vec![("n".into(), if len == 1 && rng.chance(50) { arr.remove(0) } else { DVal::Arr(arr) })])
+                    })
+                    .collect();
+                let maps: Vec<serde_yaml::Mapping> = docs.iter().map(to_yaml_map).collect();
+                let perms = all_perms(nb);
+                let mut first: Option<Vec<Vec<bool>>> = None;
+                for perm in &perms {
+                    let ast = build(perm);
+                    let Some(text) = ast.to_text() else { continue };
+                    let Some(rule) = eng::load_ok(&text) else { continue };
+                    let mut rows: Vec<Vec<bool>> = vec![];
+                    for sw in [eng::Sw(0), eng::Sw(15), eng::Sw(3), eng::Sw(2)] {
+                        let r = if sw.0 == 0 { rule.clone() } else { eng::optimise(&rule, sw).unwrap_or(rule.clone()) };
+                        rows.push(maps.iter().map(|m| eng::matches(&r, m).unwrap_or(false)).collect());
+                        rep.evaluations += maps.len() as u64;
+                    }
+                    rep.count("block_chain_orders");
+                    match &first {
+                        None => first = Some(rows),
+                        Some(f) => {
+                            if let Some((si, di)) = (0..rows.len()).flat_map(|si| (0..maps.len()).map(move |di| (si, di))).find(|(si, di)| rows[*si][*di] != f[*si][*di]) {
+                                let swn = ["unoptimised", "all switches", "coalesce+shake", "shake"][si];
+                                rep.violation(
+                                    "order",
+                                    &format!("c17-blocks:{}", swn),
+                                    &format!("reordering the {}-chain of identifiers with nested blocks over one field ({:?}) changes the verdict ({}) from {} to {} on {}", if and { "and" } else { "or" }, perm, swn, f[si][di], rows[si][di], docs[di].to_json_text()),
+                                    mon::case(&text, &docs[di], None, json!(f[si][di]), json!(rows[si][di]), json!({"order": perm, "form": swn, "first_order_rule": build(&perms[0]).to_text()})),
+                                );
+                                break;
+                            }
+                        }
+                    }
+                }
+                if let Some(f) = &first {
+                    if f[0].iter().any(|x| *x) && f[0].iter().any(|x| !*x) {
+                        rep.nontrivial_key(&format!("blocks|{}|{}|{}", nb, and, len));
+                    }
+                }
+            }
+            rep
+        });
+        rep.merge(extra);
+    }
     crate::regress::replay_witnesses(ctx, &mut rep);
     finish(
         ctx,
         rep,
         Meta {
-            rule: "generated rules; for every commutative position (members of a list, mappings of a sequence, entries of a mapping incl. nested ones, maximal and/or chains of the condition) all permutations for <= 4 operands (24 sampled beyond) x rule-aware documents; (1) the permuted part, as the whole condition of a probe rule, must be true for the same documents in every order; (2) the full rule's verdict must not change when the position is not underneath a negation or none-of quantifier; (3) for probe rules in C01's clean stratum a spread of the orders is also evaluated fully optimised and must be true for the same documents. non-trivial = position whose truth differs across the documents; distinct by (position kind, arity, feature tags of the part)".into(),
+            rule: "generated rules; for every commutative position (members of a list, mappings of a sequence, entries of a mapping incl. nested ones, maximal and/or chains of the condition) all permutations for <= 4 operands (24 sampled beyond) x rule-aware documents; (1) the permuted part, as the whole condition of a probe rule, must be true for the same documents in every order; (2) the full rule's verdict must not change when the position is not underneath a negation or none-of quantifier; (3) for probe rules in C01's clean stratum a spread of the orders is also evaluated fully optimised and must be true for the same documents; (4) and/or chains of identifiers that hold nested blocks over one field, every order x arrays of objects with the satisfying entries scattered over the elements, unoptimised and three optimised forms. non-trivial = position whose truth differs across the documents; distinct by (position kind, arity, feature tags of the part)".into(),
             exhaustive: false,
             assumptions: vec!["under negation only the truth of the permuted part is compared (first-non-true 'and' legitimately yields false or missing depending on order)".into()],
             min_nontrivial: 100,
